@@ -12,6 +12,12 @@ would not terminate is `Outcome.hang` = the loop fuel ran out):
   (`WriteName` with the suffix cache, `WriteQuestion`, `WriteRR`, `WriteMessage`, `WireFormat`);
 * `pkg/registrars/dns-registrar/requester/dns.go` — `chunks` and the query name built by `send`;
   `responder.go` — the payload extraction of `responseFor` (base32 is a parameter);
+* the channel end to end (section "query / response packaging"): `send` (the query message with its
+  OPT RR), `Responder.responseFor` (every branch: QR, the OPT loop with FORMERR / BADVERS, payload
+  size, question count, `TrimSuffix`, AA, OPCODE, QTYPE, base32, size test), `dnsRespToUDPResp`,
+  `dnsResponsePayload` + `recvLoop`, the 4096-byte receive buffer of `RequestAndRecv`, `sendHandshake`,
+  `RecvAndRespond` (which goes on with the partially read message when parsing fails, and replaces an
+  over-long datagram by an empty response); Noise and base32 are parameters;
 * `pkg/transports/obfuscate.go` — the four tag obfuscators over an abstract `Crypto` structure;
 * `pkg/transports/anypb_nourl.go` — `UnmarshalAnypbTo` as erase / restore of the type tag.
 
@@ -416,7 +422,7 @@ def recvEncoded (name domain : Name) : Option Bytes :=
 
 `requester/dns.go` (`send`, `recvLoop`, `dnsResponsePayload`), `requester/requester.go`
 (`sendHandshake`, `RequestAndRecv`), `responder/responder.go` (`responseFor`, `RecvAndRespond`,
-`dnsRespToUDPResp`). Noise (`seal` / `open_`) and base32 (`enc` / `dec`) are parameters. -/
+`dnsRespToUDPResp`). Noise (`seal_` / `open_`) and base32 (`enc` / `dec`) are parameters. -/
 
 /-- the OPT pseudo-RR both sides put into the additional section (EDNS(0), UDP payload size 4096) -/
 def optRR (ttl : UInt32) : RR := ⟨[], 41, 4096, ttl, []⟩
@@ -524,8 +530,8 @@ def recvBuffer (payload : Bytes) : Bytes :=
   payload.take 4096 ++ List.replicate (4096 - (payload.take 4096).length) 0
 
 /-- `sendHandshake` + `send`: Noise message, one-byte length prefix, base32 into the query name -/
-def requestEncode (seal : Bytes → Bytes) (enc : Bytes → Bytes) (dom : Name) (id : UInt16) (p : Bytes) : Outcome Bytes :=
-  (addRequestFormat (seal p)).bind fun f => buildQuery (enc f) dom id
+def requestEncode (seal_ : Bytes → Bytes) (enc : Bytes → Bytes) (dom : Name) (id : UInt16) (p : Bytes) : Outcome Bytes :=
+  (addRequestFormat (seal_ p)).bind fun f => buildQuery (enc f) dom id
 
 /-! `RecvAndRespond` only logs the error of `MessageFromWireFormat` and goes on with the message that
 `readMessage` returned next to the error: everything that was read completely before the failure
